@@ -8,7 +8,7 @@ CFGS = list(io.CONFIGS)
 ALPHA6 = ["a", "E", "1", "6", "#", "=", "/", "*", '"', "<", ">", "-", "+", "e", ":", "(", ")", "{", "}",
           ",", ";", " ", "\n", "\x01"]
 FRAGS = ["a", "b", "=", " ", "\n", "1", "-5", "+3", "2.5", "1e5", "16#FF#", "2#101#", "-2#1#", "2#-1#", "10#9#",
-         "\"x y\"", "'q'", "\"", "'", "(", ")", "{", "}", ",", ";", "<m>", "<", ">", "< km/s >", "/* c */", "/*",
+         "\"x y\"", "'q'", "\"", "'", "(", ")", "{", "}", ",", ";", "<m>", "<", ">", "< km/s >", "<>", "<  >", "/* c */", "/*",
          "*/", "# c\n", "#", "GROUP", "END_GROUP", "OBJECT", "END_OBJECT", "BEGIN_GROUP", "BEGIN_OBJECT", "END",
          "end", "Group", "End_Group", "NULL", "TRUE", "false", "g", "h", "2001-01-01", "2001-001", "10:00",
          "10:00:60", "2001-01-01T10:00:00.5Z", "10:00+01", "10:00-0530", "2001-01-01+01", "x-\n y", "-\n",
